@@ -12,13 +12,17 @@ Inductive hkind :=
 | HLocal (j : Z)         (* closedLocalConn number j (creation order) *)
 | HRemote.               (* closedRemoteConn *)
 
+(** state of one closedLocalConn: packet counter, size of the CONNECTION_CLOSE packet,
+    bytes received for the closed connection, bytes of retransmissions sent *)
+Record lstate := mkL { l_cnt : Z; l_psize : Z; l_recv : Z; l_sent : Z }.
+
 Record rt := mkRT {
   rt_handlers : list (cid * hkind);     (* handlers map, keys unique *)
   rt_tokens : list (Z * Z);             (* resetTokens: token -> connection *)
   rt_timers : list (Z * list cid);      (* pending time.AfterFunc of ReplaceWithClosed *)
   rt_now : Z;
   rt_nlocal : Z;                        (* closedLocalConn created so far *)
-  rt_counters : list (Z * Z)            (* closedLocalConn j -> its packet counter *)
+  rt_locals : list (Z * lstate)         (* closedLocalConn j -> its state *)
 }.
 
 Definition rt_init : rt := mkRT [] [] [] 0 0 [].
@@ -48,10 +52,13 @@ Fixpoint fire (now : Z) (timers : list (Z * list cid)) (hs : list (cid * hkind))
     else let (r', hs') := fire now r hs in ((t, ids) :: r', hs')
   end.
 
-Fixpoint zget (k : Z) (l : list (Z * Z)) : option Z :=
+Fixpoint zget {A} (k : Z) (l : list (Z * A)) : option A :=
   match l with [] => None | (i, v) :: r => if i =? k then Some v else zget k r end.
-Fixpoint zdel (k : Z) (l : list (Z * Z)) : list (Z * Z) :=
+Fixpoint zdel {A} (k : Z) (l : list (Z * A)) : list (Z * A) :=
   match l with [] => [] | (i, v) :: r => if i =? k then zdel k r else (i, v) :: zdel k r end.
+
+(** closed_conn.go closedConnAmplificationFactor *)
+Definition closedConnAmplificationFactor : Z := 3.
 
 (** bits.OnesCount32 *)
 Fixpoint popcount_pos (p : positive) : Z :=
@@ -62,18 +69,18 @@ Inductive rop :=
 | RAdd (c : cid) (n : Z)
 | RAddWith (clientDest newID : cid) (n : Z)
 | RRemove (c : cid)
-| RReplace (ids : list cid) (local : bool) (expiry : Z)
+| RReplace (ids : list cid) (local : bool) (expiry : Z) (psize : Z)   (* psize = len(connClosePacket) *)
 | RAdvance (d : Z)
 | RAddTok (t n : Z)
 | RRemTok (t : Z)
-| RDeliver (c : cid).
+| RDeliver (c : cid) (size : Z).      (* a packet of [size] bytes for connection ID c *)
 
 (** result: flag (Add / AddWithConnID), and for Deliver: kind code (0 none, 1 live,
     2 local stand-in, 3 remote stand-in), reference, CONNECTION_CLOSE copies sent *)
 Record rres := mkRR { rr_flag : bool; rr_kind : Z; rr_ref : Z; rr_sent : Z }.
 Definition rr_none := mkRR false 0 0 0.
 
-Definition with_handlers (s : rt) hs := mkRT hs (rt_tokens s) (rt_timers s) (rt_now s) (rt_nlocal s) (rt_counters s).
+Definition with_handlers (s : rt) hs := mkRT hs (rt_tokens s) (rt_timers s) (rt_now s) (rt_nlocal s) (rt_locals s).
 
 Definition rt_step_raw (o : rop) (s : rt) : rt * rres :=
   match o with
@@ -88,23 +95,29 @@ Definition rt_step_raw (o : rop) (s : rt) : rt * rres :=
     | None => (with_handlers s (hset nw (HConn n) (hset cd (HConn n) (rt_handlers s))), mkRR true 0 0 0)
     end
   | RRemove c => (with_handlers s (hdel c (rt_handlers s)), rr_none)
-  | RReplace ids local ex =>
+  | RReplace ids local ex psize =>
     let k := if local then HLocal (rt_nlocal s) else HRemote in
     (mkRT (set_all ids k (rt_handlers s)) (rt_tokens s) (rt_timers s ++ [(rt_now s + ex, ids)]) (rt_now s)
-          (if local then rt_nlocal s + 1 else rt_nlocal s) (rt_counters s), rr_none)
+          (if local then rt_nlocal s + 1 else rt_nlocal s)
+          (if local then (rt_nlocal s, mkL 0 psize 0 0) :: rt_locals s else rt_locals s), rr_none)
   | RAdvance d =>
-    (mkRT (rt_handlers s) (rt_tokens s) (rt_timers s) (rt_now s + d) (rt_nlocal s) (rt_counters s), rr_none)
-  | RAddTok t n => (mkRT (rt_handlers s) ((t, n) :: zdel t (rt_tokens s)) (rt_timers s) (rt_now s) (rt_nlocal s) (rt_counters s), rr_none)
-  | RRemTok t => (mkRT (rt_handlers s) (zdel t (rt_tokens s)) (rt_timers s) (rt_now s) (rt_nlocal s) (rt_counters s), rr_none)
-  | RDeliver c =>
+    (mkRT (rt_handlers s) (rt_tokens s) (rt_timers s) (rt_now s + d) (rt_nlocal s) (rt_locals s), rr_none)
+  | RAddTok t n => (mkRT (rt_handlers s) ((t, n) :: zdel t (rt_tokens s)) (rt_timers s) (rt_now s) (rt_nlocal s) (rt_locals s), rr_none)
+  | RRemTok t => (mkRT (rt_handlers s) (zdel t (rt_tokens s)) (rt_timers s) (rt_now s) (rt_nlocal s) (rt_locals s), rr_none)
+  | RDeliver c size =>
     match hget c (rt_handlers s) with
     | None => (s, rr_none)
     | Some (HConn n) => (s, mkRR false 1 n 0)
     | Some HRemote => (s, mkRR false 3 0 0)
     | Some (HLocal j) =>
-      let n := ((match zget j (rt_counters s) with Some v => v | None => 0 end) + 1) mod 4294967296 in
-      (mkRT (rt_handlers s) (rt_tokens s) (rt_timers s) (rt_now s) (rt_nlocal s) ((j, n) :: zdel j (rt_counters s)),
-       mkRR false 2 j (if popcount n =? 1 then 1 else 0))
+      let l := match zget j (rt_locals s) with Some v => v | None => mkL 0 0 0 0 end in
+      let n := (l_cnt l + 1) mod 4294967296 in
+      let recv := l_recv l + size in
+      (* exponential back-off, then the 3x budget of RFC 9000 10.2.1 *)
+      let send := (popcount n =? 1) && negb (closedConnAmplificationFactor * recv <? l_sent l + l_psize l) in
+      let l' := mkL n (l_psize l) recv (if send then l_sent l + l_psize l else l_sent l) in
+      (mkRT (rt_handlers s) (rt_tokens s) (rt_timers s) (rt_now s) (rt_nlocal s) ((j, l') :: zdel j (rt_locals s)),
+       mkRR false 2 j (if send then 1 else 0))
     end
   end.
 
@@ -113,6 +126,6 @@ Definition rt_step_raw (o : rop) (s : rt) : rt * rres :=
 Definition rt_step (o : rop) (s : rt) : rt * rres :=
   let (s1, r) := rt_step_raw o s in
   let (tm, hs) := fire (rt_now s1) (rt_timers s1) (rt_handlers s1) in
-  (mkRT hs (rt_tokens s1) tm (rt_now s1) (rt_nlocal s1) (rt_counters s1), r).
+  (mkRT hs (rt_tokens s1) tm (rt_now s1) (rt_nlocal s1) (rt_locals s1), r).
 
 Definition rt_run (ops : list rop) (s : rt) : rt := fold_left (fun x o => fst (rt_step o x)) ops s.
